@@ -93,15 +93,18 @@ def ws2dwcv(y, nodata, llas, robust, out, lopt):
                 gamma = w_temp / (w_temp + s * ((-1 * d_eigs) ** 2))
                 r_arr = y - y_temp
 
+                # residuals of the cells that carry weight (missing cells are not residuals)
                 mad = np.median(
-                    np.abs(r_arr[r_weights != 0] - np.median(r_arr[r_weights != 0]))
+                    np.abs(r_arr[w_temp != 0] - np.median(r_arr[w_temp != 0]))
                 )
-                u_arr = r_arr / (1.4826 * mad * np.sqrt(1 - gamma.sum() / n))
+                # a zero MAD (more than half of the residuals equal) gives nothing to down-weight
+                if mad > 0:
+                    u_arr = r_arr / (1.4826 * mad * np.sqrt(1 - gamma.sum() / n))
 
-                r_weights = (1 - (u_arr / 4.685) ** 2) ** 2
-                r_weights[(np.abs(u_arr / 4.685) > 1)] = 0
+                    r_weights = (1 - (u_arr / 4.685) ** 2) ** 2
+                    r_weights[(np.abs(u_arr / 4.685) > 1)] = 0
 
-                r_weights[r_arr > 0] = 1
+                    r_weights[r_arr > 0] = 1
 
             robust_weights = w * r_weights
 
